@@ -306,10 +306,71 @@ func runC10(r *Run) int {
 		}
 	})
 	r.Phase("v2")
+	// every string of the edit workloads that the LIBRARY accepts (whether or not the reference would): the
+	// statement is about every accepted vector, so a wrongly accepted one must still round-trip
+	for _, v2 := range []bool{false, true} {
+		v2 := v2
+		nSeeds := r.Pick(150, 900)
+		visit := func(w *W, s string, m *strMeta) {
+			for level := 0; level < 3; level++ {
+				k := kindOf(v2, level)
+				o, err, pan := lib.Decode(k, s, false)
+				if err != nil || pan != nil || o.IsNil() {
+					continue
+				}
+				w.Eval(1)
+				w.Count("library_accepted_strings_from_edit_workload")
+				c := decodeCase(k, s, false)
+				enc, eerr, _ := o.Encode()
+				str, _ := o.String()
+				if eerr != nil || str != enc {
+					w.Violate(Violation{Monitor: "C10", Check: "encoding an accepted vector succeeds and String()==Encode()", Case: c, Observed: fmt.Sprint(enc, "|", str, "|", lib.ErrClass(eerr))})
+				}
+				if v2 && enc != s {
+					w.Violate(Violation{Monitor: "C10", Check: "the v2 encoding is byte-identical to the accepted input", Case: c, Observed: enc, Expected: s})
+				}
+				if !v2 {
+					if p := spec.Parse3(s, level); p.Accept && enc != p.V.Canonical(level) {
+						w.Violate(Violation{Monitor: "C10", Check: "Encode() returns the canonical vector", Case: c, Observed: enc, Expected: p.V.Canonical(level)})
+					}
+				}
+				o2, err2, _ := lib.Decode(k, enc, false)
+				if err2 != nil || o2.IsNil() {
+					w.Violate(Violation{Monitor: "C10", Check: "the encoding of an accepted vector is accepted by the same decoder", Case: c, Observed: lib.ErrClass(err2), Note: "encoding: " + enc})
+				} else if a, b := fullObs(o), fullObs(o2); a != b || !sameInts(o.Fields(), o2.Fields()) {
+					w.Violate(Violation{Monitor: "C10", Check: "decode(encode(x)) has the same fields, scores, severities and encoding", Case: c, Observed: b, Expected: a})
+				}
+			}
+		}
+		r.Parallel(3*nSeeds, 1, func(w *W, i int) {
+			L := i % 3
+			rng := r.Rng(uint64(i) + 1<<44)
+			if !v2 {
+				v := seed3(rng, L)
+				toks := toks3(&v, L, rng, rng.IntN(2) == 0)
+				tokenEdits3(w, "CVSS:"+spec.V3Versions[v.Ver], toks, &strMeta{Src: "token-edit"}, visit)
+			} else {
+				v := seed2(rng, L)
+				tokenEdits2(w, strings.Split(v.String(), "/"), &strMeta{Src: "token-edit", V2: true}, visit)
+			}
+			for k := 0; k < 200; k++ {
+				var s string
+				if !v2 {
+					v := seed3(rng, L)
+					s = join3("CVSS:"+spec.V3Versions[v.Ver], toks3(&v, L, rng, true))
+				} else {
+					v := seed2(rng, L)
+					s = v.String()
+				}
+				visit(w, randomEdit(rng, randomEdit(rng, s, v2), v2), nil)
+			}
+		})
+	}
+	r.Phase("library-accepted strings of the edit workloads")
 	if r.Counter("valid_vector_not_decoded") > 0 {
 		r.Inconclusive("%d valid vectors were not decoded (acceptance is judged by C07/C08)", r.Counter("valid_vector_not_decoded"))
 	}
-	return r.Finish("valid-side corpus (see C09) at every admitting decoder, v3 in canonical and random token orders with optional metrics written, spelled X, or omitted: Encode() error nil and text == the harness's canonical string (v3: prefix, specification order, every metric of the decoder's level spelled, X when undefined; v2: byte-identical to the input); String()==Encode(); Decode(Encode(x)) succeeds at the same level with identical fields and full observation; distinct non-trivial = distinct corpus vectors",
+	return r.Finish("valid-side corpus (see C09) at every admitting decoder, v3 in canonical and random token orders with optional metrics written, spelled X, or omitted: Encode() error nil and text == the harness's canonical string (v3: prefix, specification order, every metric of the decoder's level spelled, X when undefined; v2: byte-identical to the input); String()==Encode(); Decode(Encode(x)) succeeds at the same level with identical fields and full observation; additionally every string of the token-edit and double-edit workloads that the library itself accepts must round-trip the same way (v2: byte-identical); distinct non-trivial = distinct corpus vectors",
 		false, nt.Load(), 100000, 50000, TrustedBase)
 }
 
